@@ -134,8 +134,11 @@ def prev_blocks_global(function: "Function", block: "BasicBlock") -> List["Basic
         # the block is the main entry block of the contract
         return []
     if block.is_sub_return_point:
-        # if the block is the return point of the subroutine, return all retsub blocks of the subroutine
-        return block.callsub_block.called_subroutine.retsub_blocks
+        # if the block is the return point of the subroutine, return all retsub blocks of the subroutine.
+        # The block might also be a jump target: the other predecessors are executed right before it as well.
+        return block.callsub_block.called_subroutine.retsub_blocks + [
+            bi for bi in block.prev if not bi.is_callsub_block
+        ]
     # if its a normal block return previous blocks in the CFG.
     return block.prev
 
